@@ -366,6 +366,17 @@ fn prompt_cases(thorough: bool) -> Vec<Case> {
         for c in cmds.iter() {
             v.push(Case { site: "prompt print".into(), prog: prog.clone(), spelling: None, stdin: vec![c.clone(), "n".into()], interpreted: false, note: format!("int 3, DS=0x{:04X}", ds) });
         }
+        // the command as the very last line of the input, without a line terminator (it is still a command;
+        // the end of input comes after it), alone and after an empty line
+        for c in cmds.iter().step_by(if thorough { 1 } else { 2 }) {
+            if c.trim().is_empty() {
+                continue;
+            }
+            v.push(Case { site: "prompt print".into(), prog: prog.clone(), spelling: None, stdin: vec![c.clone()], interpreted: false, note: format!("int 3, DS=0x{:04X} [no final newline]", ds) });
+            v.push(Case { site: "prompt print".into(), prog: prog.clone(), spelling: None, stdin: vec!["".into(), c.clone()], interpreted: false, note: format!("int 3, DS=0x{:04X}, after an empty line [no final newline]", ds) });
+        }
+        v.push(Case { site: "prompt print".into(), prog: prog.clone(), spelling: None, stdin: vec!["n".into()], interpreted: false, note: "n as the last bytes of the input [no final newline]".into() });
+        v.push(Case { site: "prompt print".into(), prog: prog.clone(), spelling: None, stdin: vec!["print reg".into(), "q".into()], interpreted: false, note: "q as the last bytes of the input [no final newline]".into() });
         // all commands in one script, and each command twice in a row (a print must not disturb the next)
         let mut all = cmds.clone();
         all.push("n".into());
@@ -489,7 +500,13 @@ pub fn run(tier: &Tier) -> i32 {
             None => render(&cs.prog),
             Some((r, up)) => respell(&cs.prog, r, up),
         };
-        let (rr, out, res) = cli_conformance_src(&src, &cs.prog, &mb, &cs.stdin, cs.interpreted, 200_000);
+        // a case marked "[no final newline]" writes its last line without the line terminator
+        let (rr, out, res) = if cs.note.ends_with("[no final newline]") {
+            let raw = cs.stdin.join("\n");
+            cli_conformance_raw(&src, &cs.prog, &mb, &cs.stdin, &raw, cs.interpreted, 200_000, false, false)
+        } else {
+            cli_conformance_src(&src, &cs.prog, &mb, &cs.stdin, cs.interpreted, 200_000)
+        };
         c.add_exec(1);
         for e in rr.events.iter() {
             match e {
